@@ -379,6 +379,43 @@ func refStraddleUnit(r refCfg) harness.Unit {
 			c.Sample(tag)
 			judgeRef(c, r, tag, fmt.Sprintf("straddles-ChangeCipherSpec:%s:before=%v:coalesced=%v", name, ct.before, ct.coalesced), o, refdev.MustAbort)
 		}
+		// ChangeCipherSpec with a body other than {1}, followed by a CORRECT Finished that is sent with
+		// or without record protection. Without protection the peer behaves as if its malformed
+		// ChangeCipherSpec had not happened - an endpoint that merely skips the malformed record would
+		// find the plaintext Finished valid.
+		if ccs+1 < len(honest[1]) && honest[1][ccs+1] == "Finished" {
+			for _, body := range [][]byte{{}, {0}, {2}, {0xff}, {1, 1}, {1, 0}, {0, 1}} {
+				for _, protect := range []bool{true, false} {
+					body, protect := body, protect
+					mut := func(fl int, items []gmref.Item) []gmref.Item {
+						if fl != 1 {
+							return items
+						}
+						out := append([]gmref.Item{}, items[:ccs]...)
+						fin := items[ccs+1]
+						if protect {
+							out = append(out, gmref.Item{Name: fmt.Sprintf("ChangeCipherSpec(body %x)", body), Rec: gmref.RecCCS, Build: func(p *gmref.Peer) []byte { return body }}, fin)
+						} else {
+							out = append(out, gmref.Item{Name: fmt.Sprintf("ChangeCipherSpec(body %x, protection stays off)", body), Rec: gmref.RecCCS, Raw: true, Build: func(p *gmref.Peer) []byte { return body }},
+								gmref.Item{Name: "Finished(unprotected)", Rec: gmref.RecHS, Fragment: true, Build: func(p *gmref.Peer) []byte {
+									m := fin.Build(p)
+									p.SentFinished = true
+									p.Transcript = append(p.Transcript, m...)
+									return m
+								}})
+						}
+						return append(out, items[ccs+2:]...)
+					}
+					o := r.runMut(mut)
+					tag := fmt.Sprintf("%s; ChangeCipherSpec with body %x, then a correct Finished (record protection on: %v)", r, body, protect)
+					c.Add("executions", 1)
+					c.Add("transitions", 1)
+					c.DistinctS("states", tag)
+					judgeRef(c, r, tag, fmt.Sprintf("malformed-ChangeCipherSpec:body=%x:finished-protected=%v", body, protect), o, refdev.MustAbort)
+				}
+			}
+			c.Sample(fmt.Sprintf("%s; ChangeCipherSpec bodies {empty,00,02,ff,0101,0100,0001} x Finished protected / unprotected", r))
+		}
 	}}
 }
 
